@@ -9,6 +9,8 @@ claimed={
      note=BASE+"reconst's re-establishment of the tree invariant is a trusted contract; whole-stream termination follows from per-call progress plus bounded output by a meta-argument; 'canonical decoding' is C07's reduct."),
  "C19": dict(text="ParseURL's postconditions (target/digis/host/params/scheme exactly as the property states, relative to net/url, path and strings contracts), absence of panics for every string, dialer dispatch (registered dialer called with the url, its result returned; ErrMissingDialer iff none) and the registry lock discipline (every map access under the mutex, no path leaves it held) are proved for all inputs.", ref="6.19",
      note=BASE+"net/url.Parse, path.Split, strings.Split/Trim/ToUpper are uninterpreted functional contracts (their own fidelity is not checked); the lock discipline is a sequential typestate argument standing in for the concurrent register/unregister/dial quantifier."),
+ "C20": dict(text="For every float64 latitude/longitude in range the values handed to the DD-MM.MMMMH formatter are proved (QF_FP, exact IEEE semantics) to have integral degrees in range, minutes in [0, 59.99995] (prints below 60.0000), the exact float evaluation of (|x|-trunc|x|)*60 with carry (accuracy), the right format string and hemisphere byte; NewCourse yields three ASCII digits (360 -> 000) and errors out of range; Course.String appends M/T; PosReport.Message writes each optional line iff its field is set and builds a valid message.", ref="6.20",
+     note=BASE+"fmt's rendering of %07.4f/%02.0f/%03d is assumed as documented (a double <= 59.99995 prints below 60.0000); fbb.NewMessage/SetBody/SetSubject/AddTo are trusted contracts here. Known finding: hemisphere byte is a space for exactly 0.0 (pinned by an existing test)."),
 }
 import sys
 checks=[]
